@@ -7,6 +7,27 @@ from props import c09sess as SS
 
 V_LOG = [0, -1, -2]        # what P / Q return when the model is declared log=True: log-likelihoods, i.e. costs 0, 1, 2
 V_LIK = [0, 0.5, 1]        # likelihoods
+V_INF = [0, -1, "-inf"]    # log-likelihoods with IMPOSSIBLE entries (the logarithm of a zero probability): costs 0, 1, +inf
+SENTINEL = 1e300           # best_val's start value in HMM.estimate
+SPECIAL = {"inf": float("inf"), "-inf": float("-inf"), "nan": float("nan")}
+
+
+def num(v):
+    """table entries are JSON-safe: the non-finite doubles are written "inf" / "-inf" / "nan" in a case"""
+    return SPECIAL[v] if isinstance(v, str) else v
+
+
+def nums(t):
+    return [nums(x) for x in t] if isinstance(t, list) else num(t)
+
+
+def tok(v):
+    """the inverse of num"""
+    if isinstance(v, float) and v != v:
+        return "nan"
+    if isinstance(v, float) and math.isinf(v):
+        return "inf" if v > 0 else "-inf"
+    return v
 BLOCK = 243                # configurations per enumerated block (3^5)
 TOL = 1e-9
 
@@ -142,6 +163,15 @@ class P(Prop):
         (H, "TV.Hmm.estimate_last_empty", "an empty candidate list at the last epoch: ValueError after the two features were created, nothing decoded, other features unchanged"),
         ("TracklibVerif.Lemmas.ViterbiTable", "TV.Viterbi.decode_eq", "refinement: the table-building decode equals the function-style back-pointer path from a minimal last state with the function-style values"),
         ("TracklibVerif.Lemmas.ViterbiTable", "TV.Viterbi.sentinel_of_paths", "if every candidate sequence's running cost stays below 1e300 then every value compared with best_val is below it"),
+        (M, "TV.C09.decoded_optimal_feasible", "T15: T1-T3 with NO hypothesis on running costs: costs that never decrease a value (non-negative, +inf = impossible allowed) and SOME candidate sequence below the sentinel: candidates assigned, hmm_cost at every epoch is the decoded prefix cost, the decoded sequence costs no more than ANY candidate sequence and is below the sentinel"),
+        (M, "TV.C09.decoded_infeasible", "T16: every candidate sequence costs at least the sentinel (no possible sequence): candidates are still assigned, the cost recorded at the last epoch is >= 1e300 (1e300 + p, not +inf)"),
+        (M, "TV.C09.sentinel_cell", "T17: a candidate none of whose predecessors offers a value below 1e300 gets back-pointer 0 and value 1e300 + p (no hypothesis on the tables)"),
+        (M, "TV.C09.infl_add", "+ with non-negative costs never decreases a running value (ordered additive commutative monoid; WithTop: +inf is a non-negative cost)"),
+        (M, "TV.C09.decoded_optimal_feasible_add", "T15 for + and non-negative costs over any ordered additive commutative monoid (N, Q>=0, WithTop Q, ENNReal)"),
+        (M, "TV.C09.impossible_avoided", "T18: costs in WithTop (top = impossible transition / emission, -log 0): if some candidate sequence is below the sentinel the decoded sequence uses NO impossible entry and is the cheapest of all sequences"),
+        (M, "TV.C09.argmin_first_nan", "T19: numpy.argmin on a column that holds a NaN returns the index of the FIRST NaN whatever the other entries (any type with < and ==; the model's argmin? is numpy's loop)"),
+        ("TracklibVerif.Lemmas.ViterbiSentinel", "TV.Viterbi.decoded_no_sentinel_hyp", "function style: minimal last entry below the sentinel iff some sequence is; then back-pointer path = prefix costs and optimal; else the recorded value is >= the sentinel"),
+        ("TracklibVerif.Lemmas.ViterbiSentinel", "TV.Viterbi.val_le_cost_any", "TAB_VAL[k][l] <= cost of every sequence ending in l at epoch k - monotone accumulation only, no hypothesis on the sentinel"),
     ]
     partial = []
     open_statements = [
@@ -259,12 +289,18 @@ class P(Prop):
     def items(self, case):
         """the explicit configurations (n, P, Q, log, exact) a case stands for"""
         if case["kind"] == "exh":
-            vals = V_LOG if case["log"] else V_LIK
+            vals = self.exh_values(case)
             for i in range(case["start"], case["start"] + case["count"]):
                 Pt, Qt = config(case["n"], i, vals)
-                yield case["n"], Pt, Qt, case["log"], case["log"]
+                yield case["n"], nums(Pt), nums(Qt), case["log"], case["log"] and not case.get("vals")
         else:
-            yield case["n"], case["P"], case["Q"], case["log"], bool(case.get("exact"))
+            yield case["n"], nums(case["P"]), nums(case["Q"]), case["log"], bool(case.get("exact"))
+
+    @staticmethod
+    def exh_values(case):
+        if case.get("vals") == "inf3":
+            return V_INF
+        return V_LOG if case["log"] else V_LIK
 
     def impl(self, case):
         if case["kind"] == "sess":
@@ -328,8 +364,22 @@ class P(Prop):
     def well_posed(self, n):
         return len(n) >= 1 and all(nk >= 1 for nk in n)
 
+    @staticmethod
+    def in_domain(CP, CQ, opt):
+        """the statement speaks about likelihoods: every cost is a number above -inf (a likelihood is finite), and — the
+        documented limit of the implementation — the optimum is below the 1e300 start value of the scan. Costs of +inf
+        (IMPOSSIBLE transitions / emissions, the logarithm of a zero probability) are inside as long as some candidate
+        sequence is possible. Outside: NaN, cost -inf, no possible sequence / optimum >= 1e300 (Props T16, T17 say what the
+        code does there: candidates are assigned, the recorded cost is 1e300 + p, not the true cost)."""
+        flat = [v for row in CP for v in row] + [v for blk in CQ for row in blk for v in row]
+        if any(v != v or v == float("-inf") for v in flat):
+            return False
+        return opt is not None and opt == opt and opt < SENTINEL
+
     def check_run(self, n, CP, CQ, opt, res, exact, what):
         """property oracle for one decoding result, given the per-entry costs and the enumerated optimum"""
+        if not self.in_domain(CP, CQ, opt):
+            return None
         if "err" in res:
             return "%s: decoding raised %s (%s)" % (what, res["err"], res.get("detail", ""))
         st, co = res["states"], res["cost"]
@@ -358,6 +408,9 @@ class P(Prop):
             CQ = [[[cost_of(v, True) for v in row] for row in blk] for blk in Qt]
             opt = best_by_enumeration(n, CP, CQ)
             return self.check_run(n, CP, CQ, opt, out["log"], exact, "logs")
+        pf, qf = flatten(Pt, Qt)
+        if any(v != v or math.isinf(v) or v < 0 for v in pf + qf):
+            return None   # not likelihoods (NaN, inf, negative): outside the statement
         CP = [[cost_of(v, False) for v in row] for row in Pt]
         CQ = [[[cost_of(v, False) for v in row] for row in blk] for blk in Qt]
         opt = best_by_enumeration(n, CP, CQ)
@@ -409,6 +462,8 @@ class P(Prop):
         CP = [[cost_of(v, log_costs) for v in row] for row in Pt]
         CQ = [[[cost_of(v, log_costs) for v in row] for row in blk] for blk in Qt]
         opt = best_by_enumeration(n, CP, CQ)
+        if not self.in_domain(CP, CQ, opt):
+            return "%s: outside the statement (NaN / cost -inf / no sequence below the sentinel), where the model is the only reference: impl=%s model=%s" % (what, ri, rm)
         m = self.check_run(n, CP, CQ, opt, ri, exact, what)
         if m:
             return "%s: differs from the model (%s) and is not optimal: %s" % (what, rm["states"], m)
@@ -442,10 +497,14 @@ class P(Prop):
         if tier == "thorough":
             return ["every table assignment of every shape with T <= 3 epochs and 1..2 states per epoch (14 shapes, 5 175 210 assignments) "
                     "over log-likelihoods {0,-1,-2} (costs 0,1,2; exact)",
-                    "the same 5 175 210 assignments over likelihoods {0, 0.5, 1}, each decoded both as likelihoods and as the corresponding logarithms"]
+                    "the same 5 175 210 assignments over likelihoods {0, 0.5, 1}, each decoded both as likelihoods and as the corresponding logarithms",
+                    "every table assignment of the 13 shapes other than (2,2,2) over log-likelihoods {0,-1,-inf} (costs 0, 1, +inf: impossible transitions / "
+                    "emissions; 392 241 assignments, IEEE doubles); (2,2,2) sampled by 60 blocks of 243"]
         return ["every table assignment of every shape with T <= 3, S <= 2 that has at most %d assignments (all shapes with T <= 2; "
                 "(1,1,1) (1,1,2) (1,2,1) (2,1,1) (2,1,2)): 37 947 assignments over log-likelihoods {0,-1,-2} and again over likelihoods {0,0.5,1}; "
                 "the shapes (1,2,2) (2,2,1) (2,2,2) are sampled by 40 random blocks of 243 consecutive assignments each (enumerated completely in the thorough tier); "
+                "over log-likelihoods {0,-1,-inf} (costs 0, 1, +inf = impossible) every assignment of the shapes (1) (2) (1,1) (1,2) (2,1) (1,1,1) (1,1,2) (2,1,1) "
+                "(5 142 assignments), the other shapes sampled by 6 blocks of 243 each; "
                 "histories of calls are sampled, not enumerated" % self.QUICK_FULL]
 
     def blocks(self, n, log, total):
@@ -467,20 +526,33 @@ class P(Prop):
                 return rng.randrange(0, 9) / 8.0
             if flavour == "likfloat":
                 return rng.choice([rng.uniform(0.001, 1.0), rng.uniform(0.001, 1.0), 0.0, 1.0, rng.uniform(0, 20.0)])
+            if flavour == "loginf":      # zero-probability transitions / emissions given as logarithms: the normal case in map-matching
+                return rng.choice(["-inf", "-inf", 0, -1, -2, -0.5, -3.25])
+            if flavour == "logzero":     # mostly impossible: often NO possible sequence (sentinel cells, recorded cost 1e300 + p)
+                return rng.choice(["-inf", "-inf", "-inf", 0, -1])
+            if flavour == "loghuge":     # finite costs that reach the 1e300 start value of the scan
+                return -rng.choice([0, 1, 2.5, 1e299, 3e299, 5e299, 1e300, 2e300])
+            if flavour == "lognan":      # NaN (numpy.argmin: first NaN), -inf costs, inf - inf
+                return rng.choice([0, -1, -2, -1.5, -1, 0, "nan", "inf", "-inf", "-inf"])
+            if flavour == "likspecial":  # inf / NaN handed over as likelihoods: math.log(inf) = inf, math.log(nan) = nan
+                return rng.choice([0, 0.5, 1, 0.25, 0.5, 1, "inf", "nan"])
             raise ValueError(flavour)
         flat = [v() for _ in range(nP(n) + nQ(n))]
         return unflatten(n, flat)
 
     FLAVOURS = {"int": (True, True), "int-wide": (True, True), "dyadic": (True, True), "logfloat": (True, False),
-                "lik3": (False, False), "lik8": (False, False), "likfloat": (False, False)}
+                "lik3": (False, False), "lik8": (False, False), "likfloat": (False, False),
+                "loginf": (True, False), "logzero": (True, False), "loghuge": (True, False), "lognan": (True, False),
+                "likspecial": (False, False)}
 
-    def rand_case(self, rng, maxT, maxS, cap):
+    def rand_case(self, rng, maxT, maxS, cap, fl=None):
         while True:
             T = rng.randrange(1, maxT + 1)
             n = [rng.randrange(1, maxS + 1) for _ in range(T)]
             if math.prod(n) <= cap:
                 break
-        fl = rng.choice(["int", "int", "int-wide", "dyadic", "logfloat", "lik3", "lik8", "lik8", "likfloat"])
+        fl = fl or rng.choice(["int", "int", "int-wide", "dyadic", "logfloat", "lik3", "lik8", "lik8", "likfloat",
+                               "loginf", "loginf", "logzero", "loghuge", "lognan", "likspecial"])
         log, exact = self.FLAVOURS[fl]
         Pt, Qt = self.rand_tables(rng, n, fl)
         return {"kind": "rand", "flavour": fl, "log": log, "exact": exact, "n": n, "P": Pt, "Q": Qt,
@@ -499,6 +571,15 @@ class P(Prop):
                     for _ in range(40):
                         s = rng.randrange(0, total // BLOCK) * BLOCK
                         out.append({"kind": "exh", "log": log, "n": n, "start": s, "count": BLOCK})
+        # impossible entries (cost +inf) enumerated: every table of the small shapes over log-likelihoods {0, -1, -inf}
+        for n in shapes(3, 2):
+            total = 3 ** (nP(n) + nQ(n))
+            if total <= (200000 if thorough else 2500):
+                out += [dict(b, vals="inf3") for b in self.blocks(n, True, total)]
+            else:
+                for _ in range(60 if thorough else 6):
+                    s = rng.randrange(0, total // BLOCK) * BLOCK
+                    out.append({"kind": "exh", "log": True, "vals": "inf3", "n": n, "start": s, "count": BLOCK})
         # an epoch without candidates / no epoch at all (outside the statement; error kinds are compared)
         for n in ([], [0], [1, 0], [0, 1], [2, 0, 1], [1, 2, 0], [0, 0], [2, 1, 0, 2]):
             for fl in ("int", "lik3"):
@@ -536,6 +617,10 @@ class P(Prop):
                         out.append({"kind": "exh", "log": log, "n": n, "start": rng.randrange(0, total // BLOCK) * BLOCK, "count": BLOCK})
         for _ in range(10000):
             out.append(self.rand_case(rng, 8, 5, 3000))
+        for n in shapes(3, 2):
+            total = 3 ** (nP(n) + nQ(n))
+            if total <= 20000:
+                out += [dict(b, vals="inf3") for b in self.blocks(n, True, total)]
         for _ in range(20000):
             out.append(SS.gen_session(rng))
         return out
@@ -550,7 +635,7 @@ class P(Prop):
         if case["kind"] == "sess":
             return SS.describe(case)
         n = case["n"]
-        return {"kind": case["kind"], "T": len(n), "maxS": max(n) if n else 0, "values": ("log " if case["log"] else "lik ") + case.get("flavour", "3-set"),
+        return {"kind": case["kind"], "T": len(n), "maxS": max(n) if n else 0, "values": ("log " if case["log"] else "lik ") + case.get("flavour", "3-set" + ("+inf" if case.get("vals") else "")),
                 "via": case.get("via", "ctor"), "S returns": case.get("cont", "list")}
 
     # ------------------------------------------------------------------ findings / shrinking
@@ -558,9 +643,8 @@ class P(Prop):
         return None
 
     def explicit(self, case, i):
-        vals = V_LOG if case["log"] else V_LIK
-        Pt, Qt = config(case["n"], i, vals)
-        return {"kind": "one", "log": case["log"], "exact": case["log"], "n": case["n"], "P": Pt, "Q": Qt}
+        Pt, Qt = config(case["n"], i, self.exh_values(case))
+        return {"kind": "one", "log": case["log"], "exact": case["log"] and not case.get("vals"), "n": case["n"], "P": Pt, "Q": Qt}
 
     def shrink(self, case):
         if case["kind"] == "sess":
@@ -626,7 +710,9 @@ class P(Prop):
             out.append(b)
             pf, qf = flatten(b["P"], b["Q"])
             flat = pf + qf
-            pool = sorted(set(flat)) + ([0, -1, -2, -3] if b["log"] else [0, 0.5, 1])
+            pool = sorted(set(flat), key=str) + ([0, -1, -2, -3] if b["log"] else [0, 0.5, 1])
+            if not b.get("exact") and b["log"]:
+                pool += ["-inf"]
             for _ in range(10):
                 f2 = list(flat)
                 for _ in range(rng.randrange(1, 4)):
